@@ -106,6 +106,13 @@ func verifNativeEndpoints(c *Cluster) {
 }
 
 func verifCluster(nOthers int) *Cluster {
+	term := verifNondetInt("term")
+	verifAssume(term >= 0 && term < 1<<30)
+	leader := []string{"", "a", "b"}[verifChoose("leader", 3)]
+	return verifClusterWith(nOthers, term, leader)
+}
+
+func verifClusterWith(nOthers int, term int, leader string) *Cluster {
 	verifNewStore()
 	verifInitGlobals()
 	globals.hub.rehash = make(chan bool, 4)
@@ -127,10 +134,8 @@ func verifCluster(nOthers int) *Cluster {
 		electionVote:       make(chan *ClusterVote, nOthers),
 		done:               make(chan bool, 1),
 	}
-	term := verifNondetInt("term")
-	verifAssume(term >= 0 && term < 1<<30)
 	c.fo.term = term
-	c.fo.leader = []string{"", "a", "b"}[verifChoose("leader", 3)]
+	c.fo.leader = leader
 	globals.cluster = c
 	return c
 }
@@ -295,6 +300,75 @@ func Harness_C17_topic_master_signature_gate() {
 		verifAssert(len(hub.join) == 0 && len(hub.routeCli) == 0 && len(hub.unreg) == 0 && len(hub.meta) == 0, "rejected-inter-node-request-reaches-nothing")
 	} else {
 		verifAssert(len(hub.join) == 1, "accepted-join-forwarded-to-the-hub")
+	}
+	verifReach("end")
+}
+
+// ---- leader's health checks and fail-over: after one round of Cluster.sendHealthChecks from arbitrary failure
+// counters, whenever a node crossed the failure threshold (or came back) in this round the leader's list of
+// active nodes is exactly itself plus the nodes below the threshold - so that isPartitioned and the ring see
+// the failure. The order in which the nodes are visited must not matter (natively Go randomises it: the replay
+// repeats the round 64 times).
+func (s *VerifVoteSvc) Health(req *ClusterHealth, unused *bool) error { return nil }
+
+//verif:override (*net/rpc.Client).Call
+func verifRpcCall(cl *rpc.Client, serviceMethod string, args any, reply any) error { return nil }
+
+func Harness_C17_health_round_failover() {
+	const limit = 3
+	names := []string{"b", "c", "d"}
+	var count0 [3]int
+	var reachable [3]bool
+	for i := range names {
+		count0[i] = verifChoose("failCount", limit+2)
+		reachable[i] = verifNondetBool("reachable")
+	}
+	rounds := 1
+	if !verifIsSymbolicEngine() {
+		rounds = 64
+	}
+	for r := 0; r < rounds; r++ {
+		c := verifClusterWith(3, 5, "a")
+		c.fo.nodeFailCountLimit = limit
+		if !verifIsSymbolicEngine() {
+			verifNativeEndpoints(c)
+		}
+		crossed := false
+		for i, nm := range names {
+			n := c.nodes[nm]
+			n.failCount = count0[i]
+			n.connected = reachable[i]
+			if !reachable[i] && count0[i]+1 == limit {
+				crossed = true
+			}
+			if reachable[i] && count0[i] >= limit {
+				crossed = true
+			}
+		}
+		c.fo.activeNodes = []string{"stale"}
+		c.sendHealthChecks()
+		if crossed {
+			want := map[string]bool{"a": true}
+			for _, nm := range names {
+				if c.nodes[nm].failCount < limit {
+					want[nm] = true
+				}
+			}
+			verifAssert(len(c.fo.activeNodes) == len(want), "failover-recomputes-the-active-nodes")
+			for _, nm := range c.fo.activeNodes {
+				verifAssert(want[nm], "active-nodes-are-the-nodes-below-the-failure-threshold")
+			}
+			verifAssert(len(globals.hub.rehash) >= 1, "failover-triggers-a-rehash")
+			verifAssert(c.isPartitioned() == (2*len(want) <= 4), "partition-detected-from-the-fresh-list")
+		}
+		for i, nm := range names {
+			n := c.nodes[nm]
+			if reachable[i] {
+				verifAssert(n.failCount == 0, "reachable-node-counter-reset")
+			} else {
+				verifAssert(n.failCount == count0[i]+1, "unreachable-node-counter-incremented")
+			}
+		}
 	}
 	verifReach("end")
 }
